@@ -2,114 +2,131 @@ import ThermoVerif.Model.FlowViews
 /-
 Helper lemmas for C11: the structural invariant of the view caches (`Inv`) and its preservation by
 every primitive that touches identities.  Core Lean only.
+
+Stream objects hold indexer objects (`Struct.ixOf`); a `proxy()` holds the same indexer object as its original, so
+every statement is about "the indexer of stream i" and an update of one indexer object is seen by all its holders.
 -/
 namespace ThermoVerif.FlowViews
 
-/-- The fields of a stream a cached view depends on. -/
+/-- The fields of an indexer a cached view depends on. -/
 def Same (s t : Stream) : Prop :=
-  s.data = t.data ∧ s.tc = t.tc ∧ s.th = t.th ∧ s.viewPhases = t.viewPhases ∧ s.viewPc = t.viewPc
+  s.data = t.data ∧ s.th = t.th ∧ s.viewPhases = t.viewPhases ∧ s.viewPc = t.viewPc
 
-theorem Same.refl (s : Stream) : Same s s := ⟨rfl, rfl, rfl, rfl, rfl⟩
+theorem Same.refl (s : Stream) : Same s s := ⟨rfl, rfl, rfl, rfl⟩
 theorem Same.symm {s t : Stream} (h : Same s t) : Same t s :=
-  ⟨h.1.symm, h.2.1.symm, h.2.2.1.symm, h.2.2.2.1.symm, h.2.2.2.2.symm⟩
+  ⟨h.1.symm, h.2.1.symm, h.2.2.1.symm, h.2.2.2.symm⟩
 theorem Same.trans {s t u : Stream} (h : Same s t) (g : Same t u) : Same s u :=
-  ⟨h.1.trans g.1, h.2.1.trans g.2.1, h.2.2.1.trans g.2.2.1, h.2.2.2.1.trans g.2.2.2.1,
-   h.2.2.2.2.trans g.2.2.2.2⟩
+  ⟨h.1.trans g.1, h.2.1.trans g.2.1, h.2.2.1.trans g.2.2.1, h.2.2.2.trans g.2.2.2⟩
 
-/-- A cache entry is *good for* stream `s`: the view wraps exactly the row objects `s` currently holds,
-captured `s`'s current chemicals, phases / phase container and thermal-condition object, and is filed
-under `'mass'` or under `s`'s current thermal condition. -/
+/-- A cache entry is *good for* indexer `s`: the view wraps exactly the row objects `s` currently holds,
+captured `s`'s current chemicals and phases / phase container, and is filed under `'mass'` or under the
+thermal-condition object it refers to (so a stream that looks its own thermal condition up gets a view of it). -/
 def Good (z : Struct) (s : Stream) (kv : Key × View) : Prop :=
   kv.2.rows = z.datas s.data ∧ kv.2.th = s.th ∧ kv.2.phases = s.viewPhases ∧ kv.2.pc = s.viewPc ∧
-  kv.2.tc = s.tc ∧ (kv.1 = .mass ∨ kv.1 = .vol s.tc)
+  (kv.1 = .mass ∨ kv.1 = .vol kv.2.tc)
 
 theorem Good.of_same {z : Struct} {s t : Stream} {kv : Key × View} (h : Same s t) (g : Good z s kv) :
     Good z t kv := by
-  obtain ⟨h1, h2, h3, h4, h5⟩ := h
-  obtain ⟨g1, g2, g3, g4, g5, g6⟩ := g
-  refine ⟨by rw [g1, h1], by rw [g2, h3], by rw [g3, h4], by rw [g4, h5], by rw [g5, h2], ?_⟩
-  rw [← h2]; exact g6
+  obtain ⟨h1, h2, h3, h4⟩ := h
+  obtain ⟨g1, g2, g3, g4, g5⟩ := g
+  exact ⟨by rw [g1, h1], by rw [g2, h2], by rw [g3, h3], by rw [g4, h4], g5⟩
+
+theorem Good.tc_of_vol {z : Struct} {s : Stream} {t : Nat} {v : View} (g : Good z s (.vol t, v)) : v.tc = t := by
+  rcases g.2.2.2.2 with h | h
+  · cases h
+  · simp only [Key.vol.injEq] at h; exact h.symm
 
 /-- The invariant behind `view_tracks_rows`. -/
 structure Inv (z : Struct) : Prop where
-  bcache : ∀ i, i < z.nstreams → (z.streams i).cache < z.ncaches
-  bdata : ∀ i, i < z.nstreams → (z.streams i).data < z.ndatas
-  /-- streams that hold the same `_data_cache` dict hold the same data, thermal condition, chemicals, phases -/
-  coh : ∀ i j, i < z.nstreams → j < z.nstreams → (z.streams i).cache = (z.streams j).cache →
-        Same (z.streams i) (z.streams j)
+  bix : ∀ i, i < z.nstreams → (z.streams i).ix < z.nixs
+  bcache : ∀ i, i < z.nstreams → (z.ixOf i).cache < z.ncaches
+  bdata : ∀ i, i < z.nstreams → (z.ixOf i).data < z.ndatas
+  /-- streams whose indexers hold the same `_data_cache` dict hold the same data, chemicals, phases -/
+  coh : ∀ i j, i < z.nstreams → j < z.nstreams → (z.ixOf i).cache = (z.ixOf j).cache →
+        Same (z.ixOf i) (z.ixOf j)
   /-- every cached view is good for every stream that can reach it -/
-  tracks : ∀ i, i < z.nstreams → ∀ kv ∈ z.caches (z.streams i).cache, Good z (z.streams i) kv
+  tracks : ∀ i, i < z.nstreams → ∀ kv ∈ z.caches (z.ixOf i).cache, Good z (z.ixOf i) kv
 
 theorem inv_init : Inv ({} : Struct) :=
   ⟨fun _ h => absurd h (Nat.not_lt_zero _), fun _ h => absurd h (Nat.not_lt_zero _),
-   fun _ _ h => absurd h (Nat.not_lt_zero _), fun _ h => absurd h (Nat.not_lt_zero _)⟩
+   fun _ h => absurd h (Nat.not_lt_zero _), fun _ _ h => absurd h (Nat.not_lt_zero _),
+   fun _ h => absurd h (Nat.not_lt_zero _)⟩
 
 @[simp] theorem upd_same {α : Type} (f : Nat → α) (i : Nat) (x : α) : upd f i x i = x := by simp [upd]
 theorem upd_ne {α : Type} (f : Nat → α) {i j : Nat} (x : α) (h : j ≠ i) : upd f i x j = f j := by
   simp [upd, h]
 
-/-- Stream `sid` (an existing one, or the next one to be created) gets a brand-new `_data_cache`; its data
-object is either an existing one or brand-new.  Everything reachable from the other streams is untouched. -/
-theorem inv_fresh {z z' : Struct} {sid : Nat} (h : Inv z)
-    (hn : ∀ j, j < z'.nstreams → j ≠ sid → j < z.nstreams)
-    (hst : ∀ j, j ≠ sid → z'.streams j = z.streams j)
-    (hc : (z'.streams sid).cache = z.ncaches)
+/-- The streams in `C` get (one and the same) brand-new `_data_cache`; their data object is an existing one or brand-new.
+Everything reachable from the other streams is untouched. -/
+theorem inv_fresh {z z' : Struct} (C : Nat → Prop) (h : Inv z)
+    (hbix : ∀ i, i < z'.nstreams → (z'.streams i).ix < z'.nixs)
+    (hold : ∀ i, i < z'.nstreams → ¬ C i → i < z.nstreams ∧ z'.ixOf i = z.ixOf i)
+    (hc : ∀ i, C i → (z'.ixOf i).cache = z.ncaches)
+    (hd : ∀ i, C i → (z'.ixOf i).data < z'.ndatas)
+    (hsame : ∀ i j, C i → C j → Same (z'.ixOf i) (z'.ixOf j))
     (hnc : z'.ncaches = z.ncaches + 1)
     (hcs : ∀ c, c < z.ncaches → z'.caches c = z.caches c)
     (hce : z'.caches z.ncaches = [])
-    (hd : (z'.streams sid).data < z'.ndatas)
     (hnd : z.ndatas ≤ z'.ndatas)
     (hds : ∀ d, d < z.ndatas → z'.datas d = z.datas d) : Inv z' := by
-  refine ⟨?_, ?_, ?_, ?_⟩
+  refine ⟨hbix, ?_, ?_, ?_, ?_⟩
   · intro i hi
-    by_cases e : i = sid
-    · subst e; rw [hc, hnc]; exact Nat.lt_succ_self _
-    · rw [hst i e, hnc]; exact Nat.lt_succ_of_lt (h.bcache i (hn i hi e))
+    by_cases e : C i
+    · rw [hc i e, hnc]; exact Nat.lt_succ_self _
+    · obtain ⟨hi', he⟩ := hold i hi e
+      rw [he, hnc]; exact Nat.lt_succ_of_lt (h.bcache i hi')
   · intro i hi
-    by_cases e : i = sid
-    · subst e; exact hd
-    · rw [hst i e]; exact Nat.lt_of_lt_of_le (h.bdata i (hn i hi e)) hnd
+    by_cases e : C i
+    · exact hd i e
+    · obtain ⟨hi', he⟩ := hold i hi e
+      rw [he]; exact Nat.lt_of_lt_of_le (h.bdata i hi') hnd
   · intro i j hi hj hij
-    by_cases ei : i = sid
-    · by_cases ej : j = sid
-      · rw [ei, ej]; exact Same.refl _
+    by_cases ei : C i
+    · by_cases ej : C j
+      · exact hsame i j ei ej
       · exfalso
-        rw [ei, hc, hst j ej] at hij
-        have := h.bcache j (hn j hj ej)
+        obtain ⟨hj', he⟩ := hold j hj ej
+        rw [hc i ei, he] at hij
+        have := h.bcache j hj'
         omega
-    · by_cases ej : j = sid
+    · by_cases ej : C j
       · exfalso
-        rw [ej, hc, hst i ei] at hij
-        have := h.bcache i (hn i hi ei)
+        obtain ⟨hi', he⟩ := hold i hi ei
+        rw [hc j ej, he] at hij
+        have := h.bcache i hi'
         omega
-      · rw [hst i ei, hst j ej] at hij ⊢
-        exact h.coh i j (hn i hi ei) (hn j hj ej) hij
+      · obtain ⟨hi', hei⟩ := hold i hi ei
+        obtain ⟨hj', hej⟩ := hold j hj ej
+        rw [hei, hej] at hij ⊢
+        exact h.coh i j hi' hj' hij
   · intro i hi kv hkv
-    by_cases e : i = sid
-    · subst e; rw [hc, hce] at hkv; cases hkv
-    · have hi' := hn i hi e
-      rw [hst i e] at hkv ⊢
+    by_cases e : C i
+    · rw [hc i e, hce] at hkv; cases hkv
+    · obtain ⟨hi', he⟩ := hold i hi e
+      rw [he] at hkv ⊢
       rw [hcs _ (h.bcache i hi')] at hkv
       obtain ⟨g1, g2⟩ := h.tracks i hi' kv hkv
       exact ⟨by rw [g1, hds _ (h.bdata i hi')], g2⟩
 
 /-- A view that is good for stream `sid` is added to `sid`'s `_data_cache` (`by_mass` / `by_volume` on a miss). -/
 theorem inv_addEntry {z z' : Struct} {sid : Nat} {kv : Key × View} (h : Inv z) (hs : sid < z.nstreams)
-    (hg : Good z (z.streams sid) kv)
-    (hn : z'.nstreams = z.nstreams) (hst : z'.streams = z.streams)
+    (hg : Good z (z.ixOf sid) kv)
+    (hn : z'.nstreams = z.nstreams) (hst : z'.streams = z.streams) (hni : z'.nixs = z.nixs) (hix : z'.ixs = z.ixs)
     (hnc : z'.ncaches = z.ncaches) (hnd : z'.ndatas = z.ndatas) (hds : z'.datas = z.datas)
-    (hca : z'.caches = upd z.caches (z.streams sid).cache (kv :: z.caches (z.streams sid).cache)) : Inv z' := by
-  refine ⟨?_, ?_, ?_, ?_⟩
-  · intro i hi; rw [hst, hnc]; exact h.bcache i (hn ▸ hi)
-  · intro i hi; rw [hst, hnd]; exact h.bdata i (hn ▸ hi)
-  · intro i j hi hj; rw [hst]; exact h.coh i j (hn ▸ hi) (hn ▸ hj)
+    (hca : z'.caches = upd z.caches (z.ixOf sid).cache (kv :: z.caches (z.ixOf sid).cache)) : Inv z' := by
+  have hof : ∀ i, z'.ixOf i = z.ixOf i := by intro i; simp [Struct.ixOf, hst, hix]
+  refine ⟨?_, ?_, ?_, ?_, ?_⟩
+  · intro i hi; rw [hst, hni]; exact h.bix i (hn ▸ hi)
+  · intro i hi; rw [hof, hnc]; exact h.bcache i (hn ▸ hi)
+  · intro i hi; rw [hof, hnd]; exact h.bdata i (hn ▸ hi)
+  · intro i j hi hj; rw [hof, hof]; exact h.coh i j (hn ▸ hi) (hn ▸ hj)
   · intro i hi kv' hkv
     have hi' : i < z.nstreams := hn ▸ hi
-    rw [hst] at hkv ⊢
-    have goodz : ∀ x, Good z (z.streams i) x → Good z' (z.streams i) x := by
+    rw [hof] at hkv ⊢
+    have goodz : ∀ x, Good z (z.ixOf i) x → Good z' (z.ixOf i) x := by
       intro x ⟨g1, g2⟩; exact ⟨by rw [g1, hds], g2⟩
     rw [hca] at hkv
-    by_cases e : (z.streams i).cache = (z.streams sid).cache
+    by_cases e : (z.ixOf i).cache = (z.ixOf sid).cache
     · rw [e, upd_same] at hkv
       cases hkv with
       | head => exact goodz _ (Good.of_same (h.coh sid i hs hi' e.symm) hg)
@@ -117,93 +134,129 @@ theorem inv_addEntry {z z' : Struct} {sid : Nat} {kv : Key × View} (h : Inv z) 
     · rw [upd_ne _ _ e] at hkv
       exact goodz _ (h.tracks i hi' kv' hkv)
 
-/-- Stream `sid` takes over `_data_cache`, data, thermal condition (and phase container) of stream `oid`
-(the sharing branch of `link_with`). -/
-theorem inv_share {z z' : Struct} {sid oid : Nat} (h : Inv z) (ho : oid < z.nstreams)
+/-- The streams in `C` (the holders of one indexer object) take over `_data_cache`, data (and phase container) of
+stream `oid` (the sharing branch of `link_with`). -/
+theorem inv_share {z z' : Struct} (C : Nat → Prop) {oid : Nat} (h : Inv z) (ho : oid < z.nstreams)
     (hn : z'.nstreams = z.nstreams)
-    (hst : ∀ j, j ≠ sid → z'.streams j = z.streams j)
-    (hc : (z'.streams sid).cache = (z.streams oid).cache)
-    (hsame : Same (z'.streams sid) (z.streams oid))
+    (hbix : ∀ i, i < z'.nstreams → (z'.streams i).ix < z'.nixs)
+    (hold : ∀ i, ¬ C i → z'.ixOf i = z.ixOf i)
+    (hc : ∀ i, C i → (z'.ixOf i).cache = (z.ixOf oid).cache)
+    (hsame : ∀ i, C i → Same (z'.ixOf i) (z.ixOf oid))
     (hnc : z'.ncaches = z.ncaches) (hca : z'.caches = z.caches)
     (hnd : z'.ndatas = z.ndatas) (hds : z'.datas = z.datas) : Inv z' := by
   have good' : ∀ s x, Good z s x → Good z' s x := by
     intro s x ⟨g1, g2⟩; exact ⟨by rw [g1, hds], g2⟩
-  refine ⟨?_, ?_, ?_, ?_⟩
+  refine ⟨hbix, ?_, ?_, ?_, ?_⟩
   · intro i hi
-    by_cases e : i = sid
-    · subst e; rw [hc, hnc]; exact h.bcache oid ho
-    · rw [hst i e, hnc]; exact h.bcache i (hn ▸ hi)
+    by_cases e : C i
+    · rw [hc i e, hnc]; exact h.bcache oid ho
+    · rw [hold i e, hnc]; exact h.bcache i (hn ▸ hi)
   · intro i hi
-    by_cases e : i = sid
-    · subst e; rw [hsame.1, hnd]; exact h.bdata oid ho
-    · rw [hst i e, hnd]; exact h.bdata i (hn ▸ hi)
+    by_cases e : C i
+    · rw [(hsame i e).1, hnd]; exact h.bdata oid ho
+    · rw [hold i e, hnd]; exact h.bdata i (hn ▸ hi)
   · intro i j hi hj hij
     have hi' : i < z.nstreams := hn ▸ hi
     have hj' : j < z.nstreams := hn ▸ hj
-    by_cases ei : i = sid
-    · by_cases ej : j = sid
-      · rw [ei, ej]; exact Same.refl _
-      · rw [ei, hc, hst j ej] at hij
-        rw [ei, hst j ej]
-        exact hsame.trans (h.coh oid j ho hj' hij)
-    · by_cases ej : j = sid
-      · rw [ej, hc, hst i ei] at hij
-        rw [ej, hst i ei]
-        exact (h.coh i oid hi' ho hij).trans hsame.symm
-      · rw [hst i ei, hst j ej] at hij ⊢
+    by_cases ei : C i
+    · by_cases ej : C j
+      · exact (hsame i ei).trans (hsame j ej).symm
+      · rw [hc i ei, hold j ej] at hij
+        rw [hold j ej]
+        exact (hsame i ei).trans (h.coh oid j ho hj' hij)
+    · by_cases ej : C j
+      · rw [hc j ej, hold i ei] at hij
+        rw [hold i ei]
+        exact (h.coh i oid hi' ho hij).trans (hsame j ej).symm
+      · rw [hold i ei, hold j ej] at hij ⊢
         exact h.coh i j hi' hj' hij
   · intro i hi kv hkv
     rw [hca] at hkv
-    by_cases e : i = sid
-    · subst e
-      rw [hc] at hkv
-      exact good' _ _ (Good.of_same hsame.symm (h.tracks oid ho kv hkv))
-    · rw [hst i e] at hkv ⊢
+    by_cases e : C i
+    · rw [hc i e] at hkv
+      exact good' _ _ (Good.of_same (hsame i e).symm (h.tracks oid ho kv hkv))
+    · rw [hold i e] at hkv ⊢
       exact good' _ _ (h.tracks i (hn ▸ hi) kv hkv)
 
-/-- `_expand_phases` (repaired): the row list of `sid`'s data object is replaced and `sid`'s `_data_cache` is
-cleared; no other stream holds that data object. -/
-theorem inv_expand {z z' : Struct} {sid : Nat} (h : Inv z) (hs : sid < z.nstreams)
-    (hun : ∀ j, j < z.nstreams → j ≠ sid → (z.streams j).data ≠ (z.streams sid).data)
+/-- `_expand_phases` (repaired): the row list of the data object of the streams in `C` (the holders of one indexer
+object) is replaced and their `_data_cache` is cleared; no stream outside `C` holds that data object. -/
+theorem inv_expand {z z' : Struct} (C : Nat → Prop) {sid : Nat} (h : Inv z) (hs : sid < z.nstreams)
+    (hun : ∀ j, j < z.nstreams → ¬ C j → (z.ixOf j).data ≠ (z.ixOf sid).data)
     (hn : z'.nstreams = z.nstreams)
-    (hst : ∀ j, j ≠ sid → z'.streams j = z.streams j)
-    (hc : (z'.streams sid).cache = (z.streams sid).cache)
-    (hd : (z'.streams sid).data = (z.streams sid).data)
+    (hbix : ∀ i, i < z'.nstreams → (z'.streams i).ix < z'.nixs)
+    (hold : ∀ i, ¬ C i → z'.ixOf i = z.ixOf i)
+    (hc : ∀ i, C i → (z'.ixOf i).cache = (z.ixOf sid).cache)
+    (hd : ∀ i, C i → (z'.ixOf i).data = (z.ixOf sid).data)
+    (hsame : ∀ i j, C i → C j → Same (z'.ixOf i) (z'.ixOf j))
     (hnc : z'.ncaches = z.ncaches) (hnd : z'.ndatas = z.ndatas)
-    (hca : ∀ c, c ≠ (z.streams sid).cache → z'.caches c = z.caches c)
-    (hce : z'.caches (z.streams sid).cache = [])
-    (hds : ∀ d, d ≠ (z.streams sid).data → z'.datas d = z.datas d) : Inv z' := by
-  have hcne : ∀ j, j < z.nstreams → j ≠ sid → (z.streams j).cache ≠ (z.streams sid).cache := by
+    (hca : ∀ c, c ≠ (z.ixOf sid).cache → z'.caches c = z.caches c)
+    (hce : z'.caches (z.ixOf sid).cache = [])
+    (hds : ∀ d, d ≠ (z.ixOf sid).data → z'.datas d = z.datas d) : Inv z' := by
+  have hcne : ∀ j, j < z.nstreams → ¬ C j → (z.ixOf j).cache ≠ (z.ixOf sid).cache := by
     intro j hj e hcj
     exact hun j hj e (h.coh j sid hj hs hcj).1
-  refine ⟨?_, ?_, ?_, ?_⟩
+  refine ⟨hbix, ?_, ?_, ?_, ?_⟩
   · intro i hi
-    by_cases e : i = sid
-    · subst e; rw [hc, hnc]; exact h.bcache _ hs
-    · rw [hst i e, hnc]; exact h.bcache i (hn ▸ hi)
+    by_cases e : C i
+    · rw [hc i e, hnc]; exact h.bcache _ hs
+    · rw [hold i e, hnc]; exact h.bcache i (hn ▸ hi)
   · intro i hi
-    by_cases e : i = sid
-    · subst e; rw [hd, hnd]; exact h.bdata _ hs
-    · rw [hst i e, hnd]; exact h.bdata i (hn ▸ hi)
+    by_cases e : C i
+    · rw [hd i e, hnd]; exact h.bdata _ hs
+    · rw [hold i e, hnd]; exact h.bdata i (hn ▸ hi)
   · intro i j hi hj hij
     have hi' : i < z.nstreams := hn ▸ hi
     have hj' : j < z.nstreams := hn ▸ hj
-    by_cases ei : i = sid
-    · by_cases ej : j = sid
-      · rw [ei, ej]; exact Same.refl _
-      · exfalso; rw [ei, hc, hst j ej] at hij; exact hcne j hj' ej hij.symm
-    · by_cases ej : j = sid
-      · exfalso; rw [ej, hc, hst i ei] at hij; exact hcne i hi' ei hij
-      · rw [hst i ei, hst j ej] at hij ⊢
+    by_cases ei : C i
+    · by_cases ej : C j
+      · exact hsame i j ei ej
+      · exfalso; rw [hc i ei, hold j ej] at hij; exact hcne j hj' ej hij.symm
+    · by_cases ej : C j
+      · exfalso; rw [hc j ej, hold i ei] at hij; exact hcne i hi' ei hij
+      · rw [hold i ei, hold j ej] at hij ⊢
         exact h.coh i j hi' hj' hij
   · intro i hi kv hkv
     have hi' : i < z.nstreams := hn ▸ hi
-    by_cases e : i = sid
-    · subst e; rw [hc, hce] at hkv; cases hkv
-    · rw [hst i e] at hkv ⊢
+    by_cases e : C i
+    · rw [hc i e, hce] at hkv; cases hkv
+    · rw [hold i e] at hkv ⊢
       rw [hca _ (hcne i hi' e)] at hkv
       obtain ⟨g1, g2⟩ := h.tracks i hi' kv hkv
       exact ⟨by rw [g1, hds _ (hun i hi' e)], g2⟩
+
+/-- Only the stream objects change (a new stream object holding an existing indexer, other thermal condition,
+other phase views): every stream of the new world holds the indexer some stream of the old world held. -/
+theorem inv_meta {z z' : Struct} (h : Inv z)
+    (hold : ∀ i, i < z'.nstreams → ∃ j, j < z.nstreams ∧ (z'.streams i).ix = (z.streams j).ix)
+    (hni : z'.nixs = z.nixs) (hix : z'.ixs = z.ixs)
+    (hnc : z'.ncaches = z.ncaches) (hca : z'.caches = z.caches)
+    (hnd : z'.ndatas = z.ndatas) (hds : z'.datas = z.datas) : Inv z' := by
+  have hof : ∀ i, i < z'.nstreams → ∃ j, j < z.nstreams ∧ z'.ixOf i = z.ixOf j := by
+    intro i hi
+    obtain ⟨j, hj, e⟩ := hold i hi
+    exact ⟨j, hj, by simp [Struct.ixOf, hix, e]⟩
+  have good' : ∀ s x, Good z s x → Good z' s x := by
+    intro s x ⟨g1, g2⟩; exact ⟨by rw [g1, hds], g2⟩
+  refine ⟨?_, ?_, ?_, ?_, ?_⟩
+  · intro i hi
+    obtain ⟨j, hj, e⟩ := hold i hi
+    rw [e, hni]; exact h.bix j hj
+  · intro i hi
+    obtain ⟨j, hj, e⟩ := hof i hi
+    rw [e, hnc]; exact h.bcache j hj
+  · intro i hi
+    obtain ⟨j, hj, e⟩ := hof i hi
+    rw [e, hnd]; exact h.bdata j hj
+  · intro i i2 hi hi2 hc
+    obtain ⟨j, hj, e⟩ := hof i hi
+    obtain ⟨j2, hj2, e2⟩ := hof i2 hi2
+    rw [e, e2] at hc ⊢
+    exact h.coh j j2 hj hj2 hc
+  · intro i hi kv hkv
+    obtain ⟨j, hj, e⟩ := hof i hi
+    rw [e, hca] at hkv
+    rw [e]
+    exact good' _ _ (h.tracks j hj kv hkv)
 
 theorem lookup_mem {α β : Type} [BEq α] [LawfulBEq α] {k : α} {v : β} :
     ∀ {l : List (α × β)}, l.lookup k = some v → (k, v) ∈ l
@@ -218,13 +271,83 @@ theorem lookup_mem {α β : Type} [BEq α] [LawfulBEq α] {k : α} {v : β} :
 
 /-! ### the primitives of the model preserve `Inv` -/
 
+/-- `Inv` only looks at the stream / indexer / cache / data tables. -/
+theorem inv_of_eq {z z' : Struct} (h : Inv z) (h1 : z'.nstreams = z.nstreams) (h2 : z'.streams = z.streams)
+    (h3 : z'.nixs = z.nixs) (h4 : z'.ixs = z.ixs) (h5 : z'.ncaches = z.ncaches) (h6 : z'.caches = z.caches)
+    (h7 : z'.ndatas = z.ndatas) (h8 : z'.datas = z.datas) : Inv z' :=
+  inv_meta h (fun i hi => ⟨i, h1 ▸ hi, by rw [h2]⟩) h3 h4 h5 h6 h7 h8
+
+theorem inv_allocData {z : Struct} (h : Inv z) (rowIds : List Nat) : Inv (z.allocData rowIds) := by
+  refine ⟨h.bix, h.bcache, ?_, h.coh, ?_⟩
+  · intro i hi
+    exact Nat.lt_succ_of_lt (h.bdata i hi)
+  · intro i hi kv hkv
+    obtain ⟨g1, g2⟩ := h.tracks i hi kv hkv
+    refine ⟨?_, g2⟩
+    have : (z.ixOf i).data ≠ z.ndatas := Nat.ne_of_lt (h.bdata i hi)
+    show kv.2.rows = upd z.datas z.ndatas rowIds ((z.allocData rowIds).ixOf i).data
+    rw [show ((z.allocData rowIds).ixOf i) = z.ixOf i from rfl, upd_ne _ _ this]; exact g1
+
+/-- Stream `sid` (an existing stream object, or one that was just created) is bound to a brand-new indexer object with a
+brand-new `_data_cache`, over an existing data object. -/
+theorem inv_bindNew {z0 z : Struct} {sid : Nat} {nix : Stream} (h : Inv z0)
+    (hst : ∀ i, i < z.nstreams → i ≠ sid → i < z0.nstreams ∧ z.streams i = z0.streams i)
+    (hixs : z.ixs = z0.ixs) (hnix : z.nixs = z0.nixs) (hnc : z.ncaches = z0.ncaches) (hca : z.caches = z0.caches)
+    (hnd : z.ndatas = z0.ndatas) (hds : z.datas = z0.datas)
+    (hd : nix.data < z.ndatas) : Inv (z.bindNew sid nix) := by
+  have hother : ∀ i, i < z.nstreams → i ≠ sid → (z.bindNew sid nix).ixOf i = z0.ixOf i := by
+    intro i hi hne
+    obtain ⟨hi0, hs⟩ := hst i hi hne
+    have hb := h.bix i hi0
+    simp only [Struct.ixOf, Struct.bindNew, upd, hne, if_false, hs, hixs, hnix]
+    rw [if_neg (Nat.ne_of_lt hb)]
+  have hself : (z.bindNew sid nix).ixOf sid = { nix with cache := z.ncaches } := by
+    simp [Struct.ixOf, Struct.bindNew, upd]
+  refine inv_fresh (fun i => i = sid) h ?_ ?_ ?_ ?_ ?_ ?_ ?_ ?_ ?_ ?_
+  · intro i hi
+    by_cases e : i = sid
+    · subst e; simp [Struct.bindNew, upd]
+    · obtain ⟨hi0, hs⟩ := hst i hi e
+      have := h.bix i hi0
+      simp only [Struct.bindNew, upd, e, if_false, hs, hnix]
+      omega
+  · intro i hi e
+    exact ⟨(hst i hi e).1, hother i hi e⟩
+  · intro i e; subst e; rw [hself]; exact hnc
+  · intro i e; subst e; rw [hself]; exact hd
+  · intro i j ei ej; subst ei; subst ej; exact Same.refl _
+  · simp [Struct.bindNew, hnc]
+  · intro c hc
+    simp only [Struct.bindNew, hca, hnc]
+    exact upd_ne _ _ (Nat.ne_of_lt hc)
+  · simp [Struct.bindNew, hnc]
+  · simp [Struct.bindNew, hnd]
+  · intro d _; simp [Struct.bindNew, hds]
+
+theorem inv_setTc {w : World} (h : Inv w.s) (sid tc : Nat) : Inv (w.setTc sid tc).s := by
+  refine inv_meta h ?_ rfl rfl rfl rfl rfl rfl
+  intro i hi
+  refine ⟨i, hi, ?_⟩
+  simp only [World.setTc, upd]
+  split <;> simp_all
+
+theorem inv_setViews {w : World} (h : Inv w.s) (sid : Nat) (vs : List (Char × Nat)) : Inv (w.setViews sid vs).s := by
+  refine inv_meta h ?_ rfl rfl rfl rfl rfl rfl
+  intro i hi
+  refine ⟨i, hi, ?_⟩
+  simp only [World.setViews, upd]
+  split <;> simp_all
+
 theorem inv_getView {w : World} {sid : Nat} {key : Key} (h : Inv w.s) (hs : sid < w.s.nstreams)
     (hk : key = .mass ∨ key = .vol (w.stream sid).tc) : Inv (w.getView sid key).1.s := by
   dsimp only [World.getView]
   split
   · exact h
-  · refine inv_addEntry (sid := sid) h hs (kv := (key, _)) ?_ rfl rfl rfl rfl rfl rfl
-    exact ⟨rfl, rfl, rfl, rfl, rfl, hk⟩
+  · refine inv_addEntry (sid := sid) h hs (kv := (key, _)) ?_ rfl rfl rfl rfl rfl rfl rfl rfl
+    refine ⟨rfl, rfl, rfl, rfl, ?_⟩
+    rcases hk with hk | hk
+    · exact Or.inl hk
+    · exact Or.inr hk
 
 theorem getView_content (w : World) (sid : Nat) (key : Key) : (w.getView sid key).1.c = w.c := by
   dsimp only [World.getView]; split <;> rfl
@@ -235,31 +358,39 @@ theorem getView_cfg (w : World) (sid : Nat) (key : Key) :
 
 theorem getView_streams (w : World) (sid : Nat) (key : Key) :
     (w.getView sid key).1.s.streams = w.s.streams ∧ (w.getView sid key).1.s.nstreams = w.s.nstreams ∧
-    (w.getView sid key).1.s.datas = w.s.datas := by
-  dsimp only [World.getView]; split <;> exact ⟨rfl, rfl, rfl⟩
+    (w.getView sid key).1.s.datas = w.s.datas ∧ (w.getView sid key).1.s.ixs = w.s.ixs := by
+  dsimp only [World.getView]; split <;> exact ⟨rfl, rfl, rfl, rfl⟩
 
-/-- the view `by_mass` / `by_volume` hands out is good for the stream -/
+/-- the view `by_mass` / `by_volume` hands out is good for the stream's indexer; a volumetric one refers to the
+thermal-condition object it was asked for -/
 theorem getView_good {w : World} {sid : Nat} {key : Key} (h : Inv w.s) (hs : sid < w.s.nstreams)
     (hk : key = .mass ∨ key = .vol (w.stream sid).tc) :
-    Good w.s (w.stream sid) (key, (w.getView sid key).2) := by
+    Good w.s (w.s.ixOf sid) (key, (w.getView sid key).2) ∧
+    (key = .vol (w.stream sid).tc → (w.getView sid key).2.tc = (w.stream sid).tc) := by
   dsimp only [World.getView]
   split
   · rename_i v hv
-    exact h.tracks sid hs (key, v) (lookup_mem hv)
-  · exact ⟨rfl, rfl, rfl, rfl, rfl, hk⟩
+    have hg := h.tracks sid hs (key, v) (lookup_mem hv)
+    refine ⟨hg, ?_⟩
+    intro hkv
+    subst hkv
+    exact hg.tc_of_vol
+  · refine ⟨⟨rfl, rfl, rfl, rfl, ?_⟩, fun _ => rfl⟩
+    rcases hk with hk | hk
+    · exact Or.inl hk
+    · exact Or.inr hk
 
 theorem inv_rebind {w : World} {sid : Nat} (h : Inv w.s) (multi : Bool) (phases : List Char)
     (phSel : Option Char) (th : Nat) (contents : List (List Rat)) :
     Inv (w.rebind sid multi phases phSel th contents).s := by
-  refine inv_fresh (sid := sid) h ?_ ?_ ?_ rfl ?_ ?_ ?_ ?_ ?_
-  · intro j hj _; exact hj
-  · intro j hj; simp [World.rebind, upd, hj]
-  · simp [World.rebind]
-  · intro c hc; simp [World.rebind, upd, Nat.ne_of_lt hc]
-  · simp [World.rebind]
-  · simp [World.rebind]
-  · simp [World.rebind]
-  · intro d hd; simp [World.rebind, upd, Nat.ne_of_lt hd]
+  have h1 := inv_allocData h (List.range' w.s.nrows contents.length)
+  have h2 := inv_bindNew (z := w.s.allocData (List.range' w.s.nrows contents.length)) (sid := sid)
+    (nix := { multi := multi, data := w.s.ndatas,
+              ph := (match phSel with | some _ => w.s.nphs | none => (w.stream sid).ph),
+              phases := phases, th := th,
+              locked := (match phSel with | some _ => false | none => (w.stream sid).locked) })
+    h1 (fun i hi _ => ⟨hi, rfl⟩) rfl rfl rfl rfl rfl rfl (Nat.lt_succ_self _)
+  exact inv_of_eq h2 rfl rfl rfl rfl rfl rfl rfl rfl
 
 theorem rebind_nstreams (w : World) (sid : Nat) (multi : Bool) (phases : List Char)
     (phSel : Option Char) (th : Nat) (contents : List (List Rat)) :
@@ -268,52 +399,124 @@ theorem rebind_nstreams (w : World) (sid : Nat) (multi : Bool) (phases : List Ch
 theorem inv_newStream {w : World} (h : Inv w.s) (multi : Bool) (phases : List Char) (ph : Char) (th : Nat)
     (T P : Rat) (contents : List (List Rat)) :
     Inv (w.newStream multi phases ph th T P contents).1.s := by
-  refine inv_fresh (sid := w.s.nstreams) h ?_ ?_ ?_ rfl ?_ ?_ ?_ ?_ ?_
-  · intro j hj hne
-    have : j < w.s.nstreams + 1 := hj
-    omega
-  · intro j hj; simp [World.newStream, World.rebind, upd, hj]
-  · simp [World.newStream, World.rebind]
-  · intro c hc; simp [World.newStream, World.rebind, upd, Nat.ne_of_lt hc]
-  · simp [World.newStream, World.rebind]
-  · simp [World.newStream, World.rebind]
-  · simp [World.newStream, World.rebind]
-  · intro d hd; simp [World.newStream, World.rebind, upd, Nat.ne_of_lt hd]
+  have h1 := inv_allocData h (List.range' w.s.nrows contents.length)
+  let z : Struct := { w.s with nstreams := w.s.nstreams + 1,
+                               streams := upd w.s.streams w.s.nstreams { tc := w.s.ntcs }, ntcs := w.s.ntcs + 1 }
+  have h2 := inv_bindNew (z0 := w.s.allocData (List.range' w.s.nrows contents.length))
+    (z := z.allocData (List.range' w.s.nrows contents.length)) (sid := w.s.nstreams)
+    (nix := { multi := multi, data := w.s.ndatas, ph := w.s.nphs, phases := phases, th := th, locked := false })
+    h1 (by
+      intro i hi hne
+      have hi' : i < w.s.nstreams + 1 := hi
+      refine ⟨by show i < w.s.nstreams; omega, ?_⟩
+      show upd w.s.streams w.s.nstreams _ i = w.s.streams i
+      exact upd_ne _ _ hne) rfl rfl rfl rfl rfl rfl (Nat.lt_succ_self _)
+  exact inv_of_eq h2 rfl rfl rfl rfl rfl rfl rfl rfl
 
 theorem newStream_nstreams (w : World) (multi : Bool) (phases : List Char) (ph : Char) (th : Nat)
     (T P : Rat) (contents : List (List Rat)) :
     (w.newStream multi phases ph th T P contents).1.s.nstreams = w.s.nstreams + 1 := rfl
 
-theorem inv_unlink {w : World} {sid : Nat} (h : Inv w.s) : Inv (w.unlink sid).s := by
-  refine inv_fresh (sid := sid) h ?_ ?_ ?_ rfl ?_ ?_ ?_ ?_ ?_
-  · intro j hj _; exact hj
-  · intro j hj; simp [World.unlink, World.unlinkWith, World.rebind, upd, hj]
-  · simp [World.unlink, World.unlinkWith, World.rebind]
-  · intro c hc; simp [World.unlink, World.unlinkWith, World.rebind, upd, Nat.ne_of_lt hc]
-  · simp [World.unlink, World.unlinkWith, World.rebind]
-  · simp [World.unlink, World.unlinkWith, World.rebind]
-  · simp [World.unlink, World.unlinkWith, World.rebind]
-  · intro d hd; simp [World.unlink, World.unlinkWith, World.rebind, upd, Nat.ne_of_lt hd]
+theorem inv_attach {w : World} (h : Inv w.s) (v r : Nat) (c : Char) (th : Nat) : Inv (w.attach v r c th).s := by
+  have h1 := inv_allocData h [r]
+  have h2 := inv_bindNew (z := w.s.allocData [r]) (sid := v)
+    (nix := { multi := false, data := w.s.ndatas, ph := w.s.nphs, phases := [], th := th, locked := true })
+    h1 (fun i hi _ => ⟨hi, rfl⟩) rfl rfl rfl rfl rfl rfl (Nat.lt_succ_self _)
+  exact inv_of_eq h2 rfl rfl rfl rfl rfl rfl rfl rfl
 
-theorem unlink_nstreams (w : World) (sid : Nat) : (w.unlink sid).s.nstreams = w.s.nstreams := rfl
+theorem attach_nstreams (w : World) (v r : Nat) (c : Char) (th : Nat) :
+    (w.attach v r c th).s.nstreams = w.s.nstreams := rfl
+
+/-- `proxy()`: one more holder of an existing indexer object -/
+theorem inv_proxy {w : World} {sid : Nat} (h : Inv w.s) (hs : sid < w.s.nstreams) : Inv (w.proxy sid).1.s := by
+  refine inv_meta h ?_ rfl rfl rfl rfl rfl rfl
+  intro i hi
+  have hi' : i < w.s.nstreams + 1 := hi
+  by_cases e : i = w.s.nstreams
+  · exact ⟨sid, hs, by simp [World.proxy, upd, e]⟩
+  · exact ⟨i, by omega, by simp [World.proxy, upd, e]⟩
+
+theorem inv_flowProxy {w : World} {sid : Nat} (h : Inv w.s) (hs : sid < w.s.nstreams) :
+    Inv (w.flowProxy sid).1.s := by
+  let z : Struct := { w.s with nstreams := w.s.nstreams + 1, streams := upd w.s.streams w.s.nstreams { tc := w.s.ntcs },
+                               ntcs := w.s.ntcs + 1 }
+  have h2 := inv_bindNew (z0 := w.s) (z := z) (sid := w.s.nstreams)
+    (nix := { multi := (w.stream sid).multi, data := (w.stream sid).data, ph := w.s.nphs,
+              phases := (w.stream sid).phases, th := (w.stream sid).th, locked := false })
+    h (by
+      intro i hi hne
+      have hi' : i < w.s.nstreams + 1 := hi
+      refine ⟨by omega, ?_⟩
+      show upd w.s.streams w.s.nstreams _ i = w.s.streams i
+      exact upd_ne _ _ hne) rfl rfl rfl rfl rfl rfl (h.bdata sid hs)
+  exact inv_of_eq h2 rfl rfl rfl rfl rfl rfl rfl rfl
+
+/-- the indexer object of stream `sid` (hence of all its holders) gets a brand-new `_data_cache`, and possibly another
+existing data object / phase container -/
+theorem inv_refreshIx {w : World} {sid : Nat} (h : Inv w.s) (hs : sid < w.s.nstreams) (f : Stream → Stream)
+    (hd : (f (w.s.ixOf sid)).data < w.s.ndatas) (streams' : Nat → SRef)
+    (hst : ∀ i, (streams' i).ix = (w.s.streams i).ix) :
+    Inv { w.s with ncaches := w.s.ncaches + 1, caches := upd w.s.caches w.s.ncaches [],
+                   ixs := upd w.s.ixs (w.s.streams sid).ix { f (w.s.ixOf sid) with cache := w.s.ncaches },
+                   streams := streams' } := by
+  refine inv_fresh (fun i => (w.s.streams i).ix = (w.s.streams sid).ix) h ?_ ?_ ?_ ?_ ?_ rfl ?_ ?_ (Nat.le_refl _) ?_
+  · intro i hi; show (streams' i).ix < w.s.nixs; rw [hst]; exact h.bix i hi
+  · intro i hi e
+    refine ⟨hi, ?_⟩
+    simp only [Struct.ixOf, hst, upd, e, if_false]
+  · intro i e
+    simp only [Struct.ixOf, hst, upd, e, if_true]
+  · intro i e
+    simp only [Struct.ixOf, hst, upd, e, if_true]
+    exact hd
+  · intro i j ei ej
+    simp only [Struct.ixOf, hst, upd, ei, ej, if_true]
+    exact Same.refl _
+  · intro c hc; exact upd_ne _ _ (Nat.ne_of_lt hc)
+  · exact upd_same _ _ _
+  · intro d _; rfl
 
 theorem inv_linkShare {w : World} {sid oid : Nat} {phase : Bool} (h : Inv w.s) (ho : oid < w.s.nstreams)
-    (hm : (w.s.streams sid).multi = (w.s.streams oid).multi)
-    (hth : (w.s.streams sid).th = (w.s.streams oid).th)
-    (hphs : (w.s.streams sid).multi = true → (w.s.streams sid).phases = (w.s.streams oid).phases)
-    (hph : phase = true ∨ (w.s.streams sid).multi = true) : Inv (w.linkShare sid oid phase).s := by
-  refine inv_share (sid := sid) (oid := oid) h ho rfl ?_ ?_ ?_ rfl rfl rfl rfl
-  · intro j hj; simp [World.linkShare, upd, hj]
-  · simp [World.linkShare]
-  · simp only [World.linkShare, upd_same]
-    refine ⟨rfl, rfl, hth, ?_, ?_⟩
-    · simp only [Stream.viewPhases]
-      cases hmo : (w.s.streams oid).multi
+    (hm : (w.s.ixOf sid).multi = (w.s.ixOf oid).multi)
+    (hth : (w.s.ixOf sid).th = (w.s.ixOf oid).th)
+    (hphs : (w.s.ixOf sid).multi = true → (w.s.ixOf sid).phases = (w.s.ixOf oid).phases)
+    (hph : phase = true ∨ (w.s.ixOf sid).multi = true) : Inv (w.linkShare sid oid phase).s := by
+  have hixeq : ∀ i, ((w.linkShare sid oid phase).s.streams i).ix = (w.s.streams i).ix := by
+    intro i; simp only [World.linkShare, upd]; split <;> simp_all
+  have hrec : ∀ i, (w.s.streams i).ix = (w.s.streams sid).ix →
+      (w.linkShare sid oid phase).s.ixOf i = (w.linkShare sid oid phase).s.ixs (w.s.streams sid).ix := by
+    intro i e
+    simp only [Struct.ixOf, hixeq, e]
+  have hcache : ((w.linkShare sid oid phase).s.ixs (w.s.streams sid).ix).cache = (w.s.ixOf oid).cache := by
+    simp [World.linkShare, Struct.ixOf, upd]
+  have hdata : ((w.linkShare sid oid phase).s.ixs (w.s.streams sid).ix).data = (w.s.ixOf oid).data := by
+    simp [World.linkShare, Struct.ixOf, upd]
+  have hth' : ((w.linkShare sid oid phase).s.ixs (w.s.streams sid).ix).th = (w.s.ixOf sid).th := by
+    simp [World.linkShare, Struct.ixOf, upd]
+  have hmu : ((w.linkShare sid oid phase).s.ixs (w.s.streams sid).ix).multi = (w.s.ixOf sid).multi := by
+    simp [World.linkShare, Struct.ixOf, upd]
+  have hphs' : ((w.linkShare sid oid phase).s.ixs (w.s.streams sid).ix).phases = (w.s.ixOf sid).phases := by
+    simp [World.linkShare, Struct.ixOf, upd]
+  have hph' : ((w.linkShare sid oid phase).s.ixs (w.s.streams sid).ix).ph =
+      if (phase && !(w.s.ixOf sid).multi) = true then (w.s.ixOf oid).ph else (w.s.ixOf sid).ph := by
+    simp [World.linkShare, Struct.ixOf, upd]
+  refine inv_share (fun i => (w.s.streams i).ix = (w.s.streams sid).ix) (oid := oid) h ho rfl ?_ ?_ ?_ ?_ rfl rfl rfl rfl
+  · intro i hi; rw [hixeq]; exact h.bix i hi
+  · intro i e
+    simp only [Struct.ixOf, hixeq]
+    simp only [World.linkShare]
+    exact upd_ne _ _ e
+  · intro i e; rw [hrec i e, hcache]
+  · intro i e
+    rw [hrec i e]
+    refine ⟨hdata, hth'.trans hth, ?_, ?_⟩
+    · simp only [Stream.viewPhases, hmu, hphs']
+      cases hmo : (w.s.ixOf oid).multi
       · simp [hm, hmo]
       · simp [hm, hmo]; exact hphs (hm.trans hmo)
-    · simp only [Stream.viewPc]
-      cases hmo : (w.s.streams oid).multi
-      · have hs : (w.s.streams sid).multi = false := hm.trans hmo
+    · simp only [Stream.viewPc, hmu, hph']
+      cases hmo : (w.s.ixOf oid).multi
+      · have hs : (w.s.ixOf sid).multi = false := hm.trans hmo
         rw [hs] at hph
         cases hph with
         | inl hp => simp [hp, hs]
@@ -322,53 +525,92 @@ theorem inv_linkShare {w : World} {sid oid : Nat} {phase : Bool} (h : Inv w.s) (
 
 theorem inv_linkPlain {w : World} {sid oid : Nat} {flow phase tp : Bool} (h : Inv w.s) (hs : sid < w.s.nstreams)
     (ho : oid < w.s.nstreams) : Inv (w.linkPlain true sid oid flow phase tp).s := by
-  refine inv_fresh (sid := sid) h ?_ ?_ ?_ rfl ?_ ?_ ?_ ?_ ?_
-  · intro j hj _; exact hj
-  · intro j hj; simp [World.linkPlain, World.freshCache, upd, hj]
-  · simp [World.linkPlain, World.freshCache]
-  · intro c hc; simp [World.linkPlain, World.freshCache, upd, Nat.ne_of_lt hc]
-  · simp [World.linkPlain, World.freshCache]
-  · simp only [World.linkPlain, World.freshCache, upd_same, if_true]
+  simp only [World.linkPlain, if_true]
+  refine inv_refreshIx h hs (fun s => { s with
+      data := if flow then (w.s.ixOf oid).data else s.data,
+      ph := if phase && !s.multi then (w.s.ixOf oid).ph else s.ph,
+      locked := if phase && !s.multi then (w.s.ixOf oid).locked else s.locked }) ?_ _ ?_
+  · simp only
     split
     · exact h.bdata oid ho
     · exact h.bdata sid hs
-  · exact Nat.le_refl _
-  · intro d _; rfl
+  · intro i; simp only [upd]; split <;> simp_all
+
+theorem linkPlain_nstreams (w : World) (sid oid : Nat) (flow phase tp : Bool) :
+    (w.linkPlain true sid oid flow phase tp).s.nstreams = w.s.nstreams := by
+  simp [World.linkPlain]
+
+theorem inv_reattachStep {w : World} (h : Inv w.s) (sid : Nat) (b1 b2 : Bool) (cv : Char × Nat) :
+    Inv (World.reattachStep sid b1 b2 w cv).s ∧ (World.reattachStep sid b1 b2 w cv).s.nstreams = w.s.nstreams := by
+  simp only [World.reattachStep]
+  have h1 : Inv (if b1 = true then (match w.rowFor sid cv.1 with
+        | some r => w.attach cv.2 r cv.1 (w.stream sid).th | none => w) else w).s ∧
+      (if b1 = true then (match w.rowFor sid cv.1 with
+        | some r => w.attach cv.2 r cv.1 (w.stream sid).th | none => w) else w).s.nstreams = w.s.nstreams := by
+    split
+    · split
+      · exact ⟨inv_attach h _ _ _ _, rfl⟩
+      · exact ⟨h, rfl⟩
+    · exact ⟨h, rfl⟩
+  split
+  · exact ⟨inv_setTc h1.1 _ _, h1.2⟩
+  · exact h1
+
+theorem inv_foldReattach (sid : Nat) (b1 b2 : Bool) (l : List (Char × Nat)) {w : World} (h : Inv w.s) :
+    Inv (l.foldl (World.reattachStep sid b1 b2) w).s ∧
+    (l.foldl (World.reattachStep sid b1 b2) w).s.nstreams = w.s.nstreams := by
+  induction l generalizing w with
+  | nil => exact ⟨h, rfl⟩
+  | cons a t ih =>
+    have h1 := inv_reattachStep h sid b1 b2 a
+    have h2 := ih h1.1
+    exact ⟨h2.1, h2.2.trans h1.2⟩
+
+theorem inv_reattach {w : World} (h : Inv w.s) (sid : Nat) (b1 b2 : Bool) :
+    Inv (w.reattach sid b1 b2).s ∧ (w.reattach sid b1 b2).s.nstreams = w.s.nstreams :=
+  inv_foldReattach sid b1 b2 _ h
 
 theorem inv_link {w w' : World} {sid oid : Nat} {flow phase tp : Bool} (h : Inv w.s)
     (hs : sid < w.s.nstreams) (ho : oid < w.s.nstreams) (hl : w.link sid oid flow phase tp = .ok w') :
     Inv w'.s ∧ w'.s.nstreams = w.s.nstreams := by
   simp only [World.link, World.linkWith, World.stream] at hl
-  by_cases hmulti : (w.s.streams sid).multi = (w.s.streams oid).multi
+  by_cases hmulti : (w.s.ixOf sid).multi = (w.s.ixOf oid).multi
   · simp only [hmulti, ne_eq, not_true_eq_false, if_false] at hl
     split at hl
     · cases hl
     · rename_i hpre
-      split at hl
-      · rename_i hshare
-        cases hl
-        refine ⟨?_, rfl⟩
-        simp only [Bool.and_eq_true, Bool.or_eq_true] at hshare
-        obtain ⟨⟨htp, hflow⟩, hph⟩ := hshare
-        subst hflow
-        simp at hpre
-        exact inv_linkShare h ho hmulti (Decidable.of_not_not (of_decide_eq_false hpre.1))
-          (fun hm => Decidable.of_not_not (of_decide_eq_false (hpre.2 (hmulti ▸ hm)))) (by rw [hmulti]; exact hph)
-      · cases hl
-        exact ⟨inv_linkPlain h hs ho, rfl⟩
+      have h1 : Inv (if (tp && flow && (phase || (w.s.ixOf oid).multi)) = true then w.linkShare sid oid phase
+            else w.linkPlain true sid oid flow phase tp).s ∧
+          (if (tp && flow && (phase || (w.s.ixOf oid).multi)) = true then w.linkShare sid oid phase
+            else w.linkPlain true sid oid flow phase tp).s.nstreams = w.s.nstreams := by
+        split
+        · rename_i hshare
+          simp only [Bool.and_eq_true, Bool.or_eq_true] at hshare
+          obtain ⟨⟨htp, hflow⟩, hph⟩ := hshare
+          subst hflow
+          simp at hpre
+          exact ⟨inv_linkShare h ho hmulti (Decidable.of_not_not (of_decide_eq_false hpre.1))
+            (fun hm => Decidable.of_not_not (of_decide_eq_false (hpre.2 (hmulti ▸ hm)))) (by rw [hmulti]; exact hph), rfl⟩
+        · exact ⟨inv_linkPlain h hs ho, linkPlain_nstreams _ _ _ _ _ _⟩
+      cases hl
+      split
+      · have := inv_reattach h1.1 sid flow true
+        exact ⟨this.1, this.2.trans h1.2⟩
+      · exact h1
   · simp [hmulti] at hl
 
 theorem not_dataShared {w : World} {sid : Nat} (h : w.dataShared sid = false) :
-    ∀ j, j < w.s.nstreams → j ≠ sid → (w.s.streams j).data ≠ (w.s.streams sid).data := by
+    ∀ j, j < w.s.nstreams → ¬ (w.s.streams j).ix = (w.s.streams sid).ix →
+      (w.s.ixOf j).data ≠ (w.s.ixOf sid).data := by
   intro j hj hne heq
-  simp only [World.dataShared, World.stream, List.any_eq_false, List.mem_range] at h
+  simp only [World.dataShared, List.any_eq_false, List.mem_range] at h
   have := h j hj
   simp [hne, heq] at this
 
 theorem inv_expandPhases {w w' : World} {sid : Nat} {others : List Char} (h : Inv w.s)
     (hs : sid < w.s.nstreams) (he : World.expandPhases true w sid others = .ok w') :
     Inv w'.s ∧ w'.s.nstreams = w.s.nstreams := by
-  simp only [World.expandPhases, World.stream] at he
+  simp only [World.expandPhases] at he
   split at he
   · cases he; exact ⟨h, rfl⟩
   · split at he
@@ -377,13 +619,70 @@ theorem inv_expandPhases {w w' : World} {sid : Nat} {others : List Char} (h : In
       cases he
       refine ⟨?_, rfl⟩
       have hun := not_dataShared (by simpa using hsh)
-      refine inv_expand (sid := sid) h hs hun rfl ?_ ?_ ?_ rfl rfl ?_ ?_ ?_
-      · intro j hj; simp [World.clearCache, upd, hj]
-      · simp [World.clearCache]
-      · simp [World.clearCache]
-      · intro c hc; simp [World.clearCache, upd, hc]
-      · simp [World.clearCache]
-      · intro d hd; simp [World.clearCache, upd, hd]
+      refine inv_expand (fun i => (w.s.streams i).ix = (w.s.streams sid).ix) (sid := sid) h hs hun rfl ?_ ?_ ?_ ?_ ?_
+        rfl rfl ?_ ?_ ?_
+      · intro i hi; exact h.bix i hi
+      · intro i e; simp only [World.clearCache, Struct.ixOf, if_true]; exact upd_ne _ _ e
+      · intro i e; simp [World.clearCache, Struct.ixOf, upd, e]
+      · intro i e; simp [World.clearCache, Struct.ixOf, upd, e, World.stream]
+      · intro i j ei ej; simp only [World.clearCache, Struct.ixOf, if_true, upd, ei, ej]; exact Same.refl _
+      · intro c hc
+        simp only [World.clearCache, Struct.ixOf, upd_same, upd, if_true]
+        rw [if_neg]; exact hc
+      · simp [World.clearCache, Struct.ixOf, upd]
+      · intro d hd; simp [World.clearCache, upd, hd, World.stream]
+
+theorem inv_phaseView {w w' : World} {sid v : Nat} {c : Char} (h : Inv w.s)
+    (he : w.phaseView sid c = .ok (w', v)) : Inv w'.s := by
+  simp only [World.phaseView] at he
+  split at he
+  · cases he
+  · split at he
+    · cases he; exact h
+    · split at he
+      · cases he
+      · rename_i r hr
+        cases he
+        apply inv_setViews
+        have h1 := inv_allocData h [r]
+        let z : Struct := { w.s with nstreams := w.s.nstreams + 1,
+                                     streams := upd w.s.streams w.s.nstreams { tc := (w.s.streams sid).tc } }
+        have h2 := inv_bindNew (z0 := w.s.allocData [r]) (z := z.allocData [r]) (sid := w.s.nstreams)
+          (nix := { multi := false, data := w.s.ndatas, ph := w.s.nphs, phases := [], th := (w.stream sid).th,
+                    locked := true })
+          h1 (by
+            intro i hi hne
+            have hi' : i < w.s.nstreams + 1 := hi
+            refine ⟨by show i < w.s.nstreams; omega, ?_⟩
+            show upd w.s.streams w.s.nstreams _ i = w.s.streams i
+            exact upd_ne _ _ hne) rfl rfl rfl rfl rfl rfl (Nat.lt_succ_self _)
+        exact inv_of_eq h2 rfl rfl rfl rfl rfl rfl rfl rfl
+
+theorem inv_unlink {w : World} {sid : Nat} (h : Inv w.s) : Inv (w.unlink sid).s := by
+  simp only [World.unlink, World.unlinkWith, if_true]
+  apply (inv_reattach _ sid true true).1
+  have h1 := inv_rebind (sid := sid) h (w.stream sid).multi (w.stream sid).phases
+    (if (w.stream sid).multi then none else some (w.c.phs (w.stream sid).ph)) (w.stream sid).th (w.readMol sid)
+  refine inv_meta h1 ?_ rfl rfl rfl rfl rfl rfl
+  intro i hi
+  refine ⟨i, hi, ?_⟩
+  simp only [upd]
+  split <;> simp_all
+
+theorem reattachStep_nstreams (sid : Nat) (b1 b2 : Bool) (w : World) (cv : Char × Nat) :
+    (World.reattachStep sid b1 b2 w cv).s.nstreams = w.s.nstreams := by
+  simp only [World.reattachStep]
+  split <;> split <;> (try split) <;> rfl
+
+theorem foldReattach_nstreams (sid : Nat) (b1 b2 : Bool) (l : List (Char × Nat)) (w : World) :
+    (l.foldl (World.reattachStep sid b1 b2) w).s.nstreams = w.s.nstreams := by
+  induction l generalizing w with
+  | nil => rfl
+  | cons a t ih => exact (ih _).trans (reattachStep_nstreams sid b1 b2 w a)
+
+theorem unlink_nstreams (w : World) (sid : Nat) : (w.unlink sid).s.nstreams = w.s.nstreams := by
+  simp only [World.unlink, World.unlinkWith, if_true, World.reattach]
+  rw [foldReattach_nstreams]; rfl
 
 /-! ### every operation preserves `Inv` -/
 
@@ -393,7 +692,7 @@ theorem inv_setPhase {w w' : World} {sid : Nat} {c : Char} {R : Mat} (h : Inv w.
   split at he
   · split at he
     · cases he
-    · cases he; exact ⟨inv_rebind h _ _ _ _ _, rfl⟩
+    · cases he; exact ⟨inv_setViews (inv_rebind h _ _ _ _ _) _ _, rfl⟩
   · cases he; exact ⟨h, rfl⟩
 
 theorem inv_setPhases {w w' : World} {sid : Nat} {ps : List Char} {R : Mat} (h : Inv w.s)
@@ -409,12 +708,16 @@ theorem inv_setPhases {w w' : World} {sid : Nat} {ps : List Char} {R : Mat} (h :
         · cases he
         · split at he
           · cases he
-          · cases he; exact ⟨inv_rebind h _ _ _ _ _, rfl⟩
+          · cases he
+            have h1 := inv_setViews (inv_rebind (sid := sid) h true (phaseTuple ps) none (w.stream sid).th R) sid
+              ((w.views sid).filter (fun cv => fileable (phaseTuple ps) cv.1))
+            have h2 := inv_reattach h1 sid true false
+            exact ⟨h2.1, h2.2⟩
     · split at he
       · cases he
       · split at he
         · cases he
-        · cases he; exact ⟨inv_rebind h _ _ _ _ _, rfl⟩
+        · cases he; exact ⟨inv_setViews (inv_rebind h _ _ _ _ _) _ _, rfl⟩
 
 theorem inv_resetThermo {w w' : World} {sid k : Nat} {R : Mat} (h : Inv w.s)
     (he : w.resetThermo sid k R = .ok w') : Inv w'.s ∧ w'.s.nstreams = w.s.nstreams := by
@@ -425,7 +728,9 @@ theorem inv_resetThermo {w w' : World} {sid k : Nat} {R : Mat} (h : Inv w.s)
     · cases he
     · split at he
       · cases he
-      · cases he; exact ⟨inv_rebind h _ _ _ _ _, rfl⟩
+      · cases he
+        have h2 := inv_reattach (inv_rebind (sid := sid) h (w.stream sid).multi (w.stream sid).phases none k R) sid true false
+        exact ⟨h2.1, h2.2⟩
 
 theorem inv_copyLike {w w' : World} {sid oid : Nat} {R : Mat} (h : Inv w.s) (hs : sid < w.s.nstreams)
     (he : w.copyLike sid oid R = .ok w') : Inv w'.s ∧ w'.s.nstreams = w.s.nstreams := by
@@ -446,7 +751,7 @@ theorem inv_copyLike {w w' : World} {sid oid : Nat} {R : Mat} (h : Inv w.s) (hs 
       · split at he
         · cases he
         · cases he
-          exact ⟨inv_rebind (sid := sid) h true (w.stream oid).phases none (w.stream sid).th R, rfl⟩
+          exact ⟨inv_setViews (inv_rebind (sid := sid) h true (w.stream oid).phases none (w.stream sid).th R) _ _, rfl⟩
     · -- multi ← single
       split at he
       · cases he
@@ -586,6 +891,8 @@ theorem exec_inv {w w' : World} {op : Op} {out : Out} (h : Inv w.s) (he : w.exec
   split at he
   · cases he
   · rename_i hg
+    split at he
+    · cases he
     have hsid : ∀ s ∈ op.sids, s < w.s.nstreams := by
       intro s hs
       simp only [List.any_eq_true, not_exists, not_and, decide_eq_true_eq, Nat.not_le] at hg
@@ -644,6 +951,16 @@ theorem exec_inv {w w' : World} {op : Op} {out : Out} (h : Inv w.s) (he : w.exec
       split at he
       · cases he
       · rename_i w1 hw1; cases he; exact (inv_mixInto h (hsid s (by simp [Op.sids])) hw1).1
+    | view s c =>
+      simp only [Except.map] at he
+      split at he
+      · cases he
+      · rename_i r hr
+        obtain ⟨w1, v⟩ := r
+        cases he
+        exact inv_phaseView h hr
+    | proxy s => cases he; exact inv_proxy h (hsid s (by simp [Op.sids]))
+    | flowProxy s => cases he; exact inv_flowProxy h (hsid s (by simp [Op.sids]))
     | readMol s => cases he; exact h
     | readMass s =>
       cases he
